@@ -43,6 +43,7 @@ type FuncContract struct {
 	Trusted  bool
 	Inline   bool
 	Opaque   bool // never inline even when small
+	Sticky   bool // single-result method: once non-nil/true for a receiver, it stays so (e.g. context.Context.Err)
 	Effects  []string
 	Calls    map[string]string // param name -> once|any|foreach
 	Results  []string          // names for unnamed results (r0, r1 default)
@@ -106,7 +107,7 @@ var clauseKeywords = map[string]bool{
 	"func": true, "spec": true, "ghost": true, "lemma": true, "axiom": true,
 	"requires": true, "ensures": true, "loop": true, "callback": true, "nopanic": true,
 	"assigns": true, "effects": true, "calls": true, "pure": true,
-	"trusted": true, "inline": true, "reach": true, "sends": true, "opaque": true, "crash_invariant": true, "results": true,
+	"trusted": true, "inline": true, "reach": true, "sends": true, "opaque": true, "sticky": true, "crash_invariant": true, "results": true,
 }
 
 var tagRe = regexp.MustCompile(`^([a-z_]+)\[([A-Za-z0-9_,\- ]+)\]`)
@@ -419,6 +420,11 @@ func parseContractFile(path, pkgPath string) (*ContractFile, error) {
 				return nil, err
 			}
 			cur.Opaque = true
+		case "sticky":
+			if err := needCur(); err != nil {
+				return nil, err
+			}
+			cur.Sticky = true
 		case "trusted":
 			if err := needCur(); err != nil {
 				return nil, err
